@@ -293,6 +293,9 @@ class E1Check(runner.Check):
                             if not trivial(got[1]):
                                 st.nontrivial += 1
                         else:
+                            self._last = (evalue, got[1])
+                            sig.update(self.l3_signature(T, tvs, label))
+                            self._last = None
                             st.violation("value", "ak.%s on %r [%s; %s]: expected %r, got %r" % (
                                 label, values.strip(tvs), values.tstr(T), names, evalue, got[1]), case, failure="value", **sig)
                     elif ekind == "error" and got[0] == "error":
